@@ -306,6 +306,8 @@ class MultiVector:
 
         values = self.values()
         if isinstance(values, (tuple, list)):
+            if values and all(isinstance(value, Number) for value in values):
+                raise TypeError("A multivector without array-valued coefficients cannot be indexed.")
             # A plain number among array coefficients (the scalar of `array_valued + 2.5`) holds at every index.
             return_values = values.__class__(value if isinstance(value, Number) else value[item] for value in values)
         else:
